@@ -3,6 +3,7 @@
   (`ASV/Model/SerialQual.lean`).  Boolean so that the driver can report them per case.
 -/
 import ASV.Model.SerialQual
+import ASV.Spec.Serial
 namespace ASV.Serial
 open ASV
 
@@ -42,5 +43,20 @@ def Annot.textSafe (a : Annot) : Bool :=
 /-- the sec_met domains whose text reads back -/
 def SMDom.textSafe (d : SMDom) : Bool :=
   fitsFormat smFmt [d.name.toList, d.evalue.toList, d.bitscore.toList, d.nseeds.toList, d.tool.toList]
+
+/-- the keys the domain / motif classes write themselves -/
+def domKeysB : List String :=
+  ["aSTool", "locus_tag", "protein_start", "protein_end", "aSDomain", "ASF", "domain_id", "database", "detection", "label",
+   "translation", "evalue", "score"]
+
+/-- the domain / motif objects the round-trip theorem speaks about (Boolean mirror of `Dom.WF`) -/
+def domWFb (kind : DomKind) (d : Dom) : Bool :=
+  featWFb d.feat && d.feat.byAS && d.feat.codon.isNone && d.feat.type == kind.type &&
+  domKeysB.all (fun k => (Q.get? d.feat.quals k).isNone) &&
+  d.tool != "" && d.locusTag != "" && noSpaces d.locusTag == d.locusTag && decide (d.pStart ≤ d.pEnd) &&
+  d.domain != some "" && canonSet d.asf == d.asf &&
+  d.domainId != some "" && d.domainId.map noSpaces == d.domainId && (kind != .asDomain || d.domainId.isSome) &&
+  d.database != some "" && d.detection != some "" && d.label != some "" && d.label.map noSpaces == d.label &&
+  !d.translation.toList.contains '*'
 
 end ASV.Serial
